@@ -126,6 +126,26 @@ def run(cx):
                 cx._number(exits)
                 cx.must_pass('C18.G1', n, exits, via_blocks={failed[0].bb}, start_blocks=err_edge, what='every-send-error-marks-the-connection-Failed')
 
+    # ---------------------------------------------------------------- T2 a closed stream fails its requests with a CONNECTION error
+    # the pool moves on to the next server only for Io / NoConnections / Timeout / Busy, and a name server reconnects only when
+    # NetError::is_connection_closed (an Io error of kind ConnectionReset|ConnectionAborted|NotConnected|BrokenPipe|UnexpectedEof): the
+    # error DnsMultiplexer hands to every pending request when the byte stream ends must be of that class - the transport's own io
+    # error, or Io(UnexpectedEof) for a clean close - or a server that closes the connection ends the whole lookup
+    mx_ = cx.fn('C18.T2', r'<hickory_net::xfer::dns_multiplexer::DnsMultiplexer<S> as futures_core::stream::Stream>::poll_next')
+    if mx_:
+        ca = cx.calls(mx_, r'DnsMultiplexer<S>::stream_closed_close_all$|DnsMultiplexer::stream_closed_close_all$')
+        cx.check('C18.T2', len(ca) >= 1, mx_.path, 'calls', 'close-all-present', str(len(ca)))
+        IOERR = r'StreamExt::poll_next_unpin\(arg1\.stream,arg2\)@Ready\.0@Some\.0@Err\.0'
+        EOF_ = r'into<NetError>\(Error::new\(ErrorKind::(UnexpectedEof|ConnectionReset|ConnectionAborted|NotConnected|BrokenPipe),[^()]*\)\)'
+        for s_ in ca:
+            ok = bool(re.fullmatch(rf'DnsMultiplexer::stream_closed_close_all\(arg1,(phi\(({IOERR}|{EOF_})(\|({IOERR}|{EOF_}))*\)|{IOERR}|{EOF_})\)', s_.term))
+            cx.check('C18.T2', ok, mx_.path, s_.key(), 'pending-requests-fail-with-the-stream-error-or-Io(connection-closed-kind)', s_.term[:220], s_.loc,
+                     sample={'fn': 'DnsMultiplexer::poll_next', 'error': s_.term[-120:], 'holds': ok})
+    ic = cx.fn('C18.T2', 'hickory_net::error::NetError::is_connection_closed')
+    if ic:
+        tr = cx.true_returns(ic)
+        cx.guard('C18.T2', tr, {'io-error': r'^is\(arg1,Io\)$', 'kind-is-a-closed-connection': r'^in\(Error::kind\(arg1@Io\.0\),ConnectionReset\|ConnectionAborted\|NotConnected\|BrokenPipe\|UnexpectedEof\)$'}, expect=1, fn=ic)
+
     # ---------------------------------------------------------------- N1 argument names agree with the parameters they are bound to (engine/argnames.py)
     argnames.check(cx, 'C18.N1', r'hickory_resolver::(connection_provider|name_server|name_server_pool)', floor=50)
     argnames.check_fields(cx, 'C18.N1', r'hickory_resolver::(connection_provider|name_server|name_server_pool)', floor=16)
